@@ -147,16 +147,21 @@ def quiet_preload():
     """import the rendering stack once in this process (forked workers inherit it); the import
     prints font / deprecation notices to stderr, which are not ours to show"""
     import sys
+    sys.stdout.flush()
     sys.stderr.flush()
-    saved = os.dup(2)
+    saved = os.dup(1), os.dup(2)
     devnull = os.open(os.devnull, os.O_WRONLY)
     try:
+        os.dup2(devnull, 1)
         os.dup2(devnull, 2)
         rh.preload()
+        sys.stdout.flush()
         sys.stderr.flush()
     finally:
-        os.dup2(saved, 2)
-        os.close(saved)
+        os.dup2(saved[0], 1)
+        os.dup2(saved[1], 2)
+        os.close(saved[0])
+        os.close(saved[1])
         os.close(devnull)
 
 
@@ -217,6 +222,36 @@ def validate_runs(ctx, runs, name):
     if len(verdicts) != len(runs):
         ctx.machinery("TLC judged %d of %d recorded runs" % (len(verdicts), len(runs)))
     return [verdicts[i] for i in range(len(runs))], res
+
+
+def trace_selftest(ctx):
+    """non-vacuity of the trace validation, run every time: hand-corrupted runs must be rejected
+    by TLC at the expected event, the intact one accepted"""
+    def evs(*xs):
+        return [{"s": s, "a": a} for s, a in xs]
+    full = [("OpenArchive", 0), ("Expand", 1), ("Parse", 1), ("Clean", 1), ("Layout", 1), ("Output", 0), ("Judge", 0)]
+    base = {"n": 1, "den": [701, 1, 2], "req": True, "found": [1, 2, 701], "ok": True}
+    runs = [
+        dict(base, ev=evs(*full)),                                                       # accepted
+        dict(base, ev=evs(*full), found=[1, 701]),                                       # word 2 lost
+        dict(base, ev=evs(*full), ok=False),                                             # unreadable output
+        dict(base, ev=evs(full[0], full[5], full[6])),                                   # article skipped
+        dict(base, ev=evs(full[0], full[2], full[1], *full[3:])),                        # Parse before Expand
+        dict(base, ev=evs(*full[:5], ("Fail", 1))),                                      # first pass fails
+        dict(base, ev=evs(*full[:5], *full[1:5], *full[5:])),                            # starts over
+        dict(base, n=2, ev=evs(*full[:5], ("Output", 0), ("Judge", 0))),                 # 2nd article never seen
+        dict(base, ev=evs(*full[:4])),                                                   # stops early
+        dict(base, ev=evs(*full), req=False, found=[]),                                  # words not required
+    ]
+    want = [("accepted", 8), ("rejected", 7), ("rejected", 7), ("rejected", 2), ("rejected", 2), ("rejected", 6),
+            ("rejected", 6), ("rejected", 6), ("incomplete", 5), ("accepted", 8)]
+    verdicts, _ = validate_runs(ctx, runs, "RenderTrace_selftest")
+    got = [(v["verdict"], v["l"]) for v in verdicts]
+    if got != want:
+        ctx.machinery("trace validation self-test: TLC verdicts %r, expected %r" % (got, want))
+    if verdicts[1]["missing"] != [2]:
+        ctx.machinery("trace validation self-test: missing words %r, expected [2]" % (verdicts[1]["missing"],))
+    return len(runs)
 
 
 # ----------------------------------------------------------------------------- naming rejections
@@ -391,6 +426,7 @@ def run(ctx):
     missing = tlc.uncovered_actions(pres, ["OpenArchive", "ExpandSome", "ParseSome", "CleanSome", "LayoutSome", "Output", "Judge"])
     if missing:
         ctx.machinery("actions never taken in RenderPipeline: %s" % missing)
+    n_self = trace_selftest(ctx)
     # ---- P-MC + P-ENUM: the generator
     if quick:
         plans = [("one_full", dict(maxarts=1, maxblocks=1, palette="full", chapters=False)),
@@ -445,7 +481,7 @@ def run(ctx):
         collections_with_tables=count("tables"), collections_with_lists=count("lists"),
         runs_per_path=per_kind, tlc_verdicts=stats, stage_events_accepted=stages,
         generator_states=states + simgen, generator_transitions=trans + simgen,
-        trace_states=tres.distinct, pipeline_states=pres.distinct,
+        trace_states=tres.distinct, pipeline_states=pres.distinct, trace_selftest_runs=n_self,
         action_coverage={"RenderPipeline": pres.coverage, "Collection": cres.coverage, "RenderTrace": tres.coverage},
         odf_words_in_verdict=ODF_WORDS_IN_VERDICT, odf_words_not_in_content_xml_by_construct=odf_lost,
         rule="collections generated by spec/Collection.tla: exhaustive BFS for %s plus -simulate (rich palette, up to 4 articles x %d "
